@@ -549,7 +549,17 @@ func (c *C) Close() error {
 			c.Log.Error("QUIT error", c.wrapClientErr(err, c.serverName))
 		}
 
-		return c.cl.Close()
+		// The server has dropped the connection or is about to, closing
+		// our end of it can fail for the same reason (TLS cannot send
+		// close_notify on a connection that was reset). That says nothing
+		// about the transaction completed before QUIT.
+		if err := c.cl.Close(); err != nil {
+			c.Log.DebugMsg("connection close error", "reason", err)
+		}
+		c.cl = nil
+		c.serverName = ""
+
+		return nil
 	}
 
 	c.cl = nil
